@@ -106,6 +106,10 @@ pub enum RequestCreationError {
     /// The client sent an `Expect` header that was not recognized by tiny-http.
     ExpectationFailed,
 
+    /// The client sent a `Content-Length` header whose value is not a decimal number
+    /// that fits in a `usize`.
+    InvalidContentLength,
+
     /// Error while reading data from the socket during the creation of the `Request`.
     CreationIoError(IoError),
 }
@@ -146,16 +150,31 @@ where
         .find(|h: &&Header| h.field.equiv("Transfer-Encoding"))
         .map(|h| h.value.clone());
 
-    // finding the content-length header
+    // finding the content-length header; a value that is not 1*DIGIT (RFC 7230 #3.3.2) or
+    // that we cannot represent makes the framing ambiguous and must not be guessed at
+    let declared_length = match headers
+        .iter()
+        .find(|h: &&Header| h.field.equiv("Content-Length"))
+    {
+        None => None,
+        Some(h) => {
+            let value = h.value.as_str();
+            if value.is_empty() || !value.bytes().all(|b| b.is_ascii_digit()) {
+                return Err(RequestCreationError::InvalidContentLength);
+            }
+            match usize::from_str(value) {
+                Ok(length) => Some(length),
+                Err(_) => return Err(RequestCreationError::InvalidContentLength),
+            }
+        }
+    };
+
     let content_length = if transfer_encoding.is_some() {
         // if transfer-encoding is specified, the Content-Length
         // header must be ignored (RFC2616 #4.4)
         None
     } else {
-        headers
-            .iter()
-            .find(|h: &&Header| h.field.equiv("Content-Length"))
-            .and_then(|h| FromStr::from_str(h.value.as_str()).ok())
+        declared_length
     };
 
     // true if the client sent a `Expect: 100-continue` header
